@@ -541,7 +541,9 @@ func aggregate(id, tier string, seed int64, pc *PropCfg, bo *buildOut, results [
 		if wr.Raw != nil {
 			json.Unmarshal(wr.Raw, &r)
 		}
-		if wr.ExitCode != 0 || wr.Raw == nil {
+		// exit status 1 with a complete result file is the Go test framework
+		// flagging "race detected during execution of test": not a worker death
+		if (wr.ExitCode != 0 && !(wr.ExitCode == 1 && wr.Raw != nil && r.RaceBuild)) || wr.Raw == nil {
 			// a worker died: attribute
 			msg := fmt.Sprintf("worker %d exit=%d signal=%s status=[%s]", i, wr.ExitCode, wr.Signal, wr.Status)
 			if wr.Hang != "" {
